@@ -53,6 +53,33 @@ macro_rules! path_window {
     };
 }
 #[cfg(kani)]
+macro_rules! path_byte {
+    ($name:ident, $pos:expr) => {
+        #[kani::proof]
+        #[kani::unwind(70)]
+        fn $name() {
+            let mut h = [0x5au8; 32];
+            let mut i = 0;
+            while i < 32 {
+                h[i] = (i as u8).wrapping_mul(37).wrapping_add(11);
+                i += 1;
+            }
+            let a: u8 = kani::any();
+            h[$pos] = a;
+            path_roundtrip_body(h);
+            kani::cover!(a == 0xff, "byte value ff");
+        }
+    };
+}
+#[cfg(kani)]
+path_byte!(c18_path_byte_0, 0);
+#[cfg(kani)]
+path_byte!(c18_path_byte_1, 1);
+#[cfg(kani)]
+path_byte!(c18_path_byte_2, 2);
+#[cfg(kani)]
+path_byte!(c18_path_byte_31, 31);
+#[cfg(kani)]
 path_window!(c18_path_window_0, 0);
 #[cfg(kani)]
 path_window!(c18_path_window_1, 1);
